@@ -122,6 +122,14 @@ where
             let max_response_size = ctx
                 .max_response_size_hint()
                 .unwrap_or(MINIMUM_RESPONSE_BYTE_LEN);
+            // A requestor that did not send an OPT record has not
+            // advertised any payload size, so the 512 byte limit applies
+            // whatever the server itself would be willing to send.
+            let max_response_size = if request.message().opt().is_none() {
+                MINIMUM_RESPONSE_BYTE_LEN
+            } else {
+                max_response_size
+            };
             let max_response_size = max_response_size as usize;
             let response_len = response.as_slice().len();
 
